@@ -56,6 +56,18 @@ def classify(c):
     return None
 
 
+def scan_gen_forbidden():
+    bad = []
+    d = os.path.join(vlib.COQ, "gen", PROP)
+    for f in sorted(os.listdir(d)):
+        if f.endswith(".v"):
+            txt = re.sub(r"\(\*.*?\*\)", " ", open(os.path.join(d, f)).read(), flags=re.S)
+            for i, line in enumerate(txt.split("\n"), 1):
+                if vlib.FORBIDDEN.search(line) or re.match(r"\s*(Variables?|Hypothes[ie]s|Context)\b", line):
+                    bad.append("coq/gen/%s/%s:%d: %s" % (PROP, f, i, line.strip()))
+    return bad
+
+
 def build_tools(ctx):
     ov = vlib.make_overlay(ctx)
     out = os.path.join(ctx.build, "bin")
@@ -85,7 +97,7 @@ def run(ctx):
 
     ctx.log("building Coq development")
     ok, log = vlib.coq_build(["theories/Common/CaseLib.vo"] + vlib.prop_targets(PROP))
-    forb = vlib.scan_forbidden([PROP])
+    forb = vlib.scan_forbidden([PROP]) + scan_gen_forbidden()
     proof_broken = None
     if not ok:
         proof_broken = "Coq build failed:\n" + log[-4000:]
@@ -133,7 +145,12 @@ def run(ctx):
         return vlib.finish(ctx, [(rp, "no-failing-input-found")], [], "proof", coverage(), ASSUMPTIONS)
 
     ctx.log("running driver (complete enumeration), seed %d" % ctx.seed)
-    lines = vlib.run_driver(ctx, drv, ["-seed", ctx.seed] + (["-full"] if ctx.tier == "thorough" else []))
+    try:
+        lines = vlib.run_driver(ctx, drv, ["-seed", ctx.seed] + (["-full"] if ctx.tier == "thorough" else []))
+    except RuntimeError as e:
+        rp = vlib.write_replay(ctx, "driver-crash", dict(kind="implementation-crash", log=str(e)[-5000:], proof=proof_broken,
+                               note="the real code crashed (or rejected a documented value) while the driver ran the enumeration"))
+        return vlib.finish(ctx, [(rp, "")], [], "proof", coverage(), ASSUMPTIONS)
     cases = [l for l in lines if "coq" in l]
     defs = [l["def"] for l in lines if "def" in l]      # the two halves of the cases, shared between cases
     if gen_ok:
